@@ -278,7 +278,7 @@ PROPS["C10"] = {
 PROPS["C15"] = {
     "claim": "deduplicate_namespaces removes only declarations, keeps every expanded name / attribute / content, keeps the "
              "tree serialisable and re-parseable to the same canonical form, and is idempotent",
-    "harnesses": [H("h_c15_dedup", {"CFG": 5, "CFG2": 3, "NSK": 2, "SAMEINNER": 1}, {"CFG": 8, "NSK": 2}, shards={"quick": shard_product(("c0", 5), ("c1", 5), ("c3", 3)), "thorough": shard_product(("c0", 8), ("c1", 8), ("c3", 3))}, budget=(900, 3000))],
+    "harnesses": [H("h_c15_dedup", {"CFG": 5, "CFG2": 3, "NSK": 2, "SAMEINNER": 1, "DEDUPORDER": 1}, {"CFG": 8, "NSK": 2}, shards={"quick": shard_product(("c0", 5), ("c1", 5), ("c3", 3)), "thorough": shard_product(("c0", 8), ("c1", 8), ("c3", 3))}, budget=(900, 3000))],
     "bounds": {"quick": "4-level element chains with 5x5x3x3 declaration layouts (same namespace under several prefixes, prefix "
                         "redeclared down the path, default namespace interleaved, xmlns=\"\"), names in {none,A}^3, a prefixed "
                         "attribute in A at the bottom", "thorough": "8x8x8x3 layouts"},
